@@ -54,7 +54,7 @@ CONFIG = {
     'quick': {'shards': 16, 'cases': 1200, 'timeout': 600, 'floor': 3840},
     'thorough': {'shards': 32, 'cases': 12000, 'timeout': 5400, 'floor': 76000},
 }
-REQUIRED = ['vec_calls', 'vec_rows_checked', 'vec_model_runs', 'vec_second_use', 'dtype_false', 'dtype_explicit',
+REQUIRED = ['ext_vec_empty_meta_calls', 'vec_calls', 'vec_rows_checked', 'vec_model_runs', 'vec_second_use', 'dtype_false', 'dtype_explicit',
             'auto_constants', 'masked_constants', 'masked_array_len_eq_batch', 'batch_from_inputs', 'batch_from_batch_size',
             'kwargs_passed',
             'ext_calls', 'ext_tokens_checked', 'ext_positional_fields', 'ext_keyword_fields', 'ext_seed_equal_state_pairs',
@@ -734,6 +734,8 @@ def gen_ext(rng, kind):
     meta = None
     if kind != 'ext' or rng.random() < 0.3:
         meta = {'batch_index': int(rng.integers(0, 50)), 'submission_index': int(rng.integers(0, 9))}
+        if kind == 'ext_vec' and rng.random() < 0.25:
+            meta = {}            # an empty metadata dictionary is still a metadata dictionary: rows must stay distinguishable
     fields = gen_fields(rng, family, inputs, kw, with_rs and family not in ('awk', 'awk_v'), sorted(meta) if meta else [])
     has_seed = any(f['f'] == 'seed' for f in fields)
     if any(isinstance(f.get('v'), float) for f in fields if f['f'] == 'lit'):
@@ -875,6 +877,7 @@ def run_ext_vec(ctx, case):
             kk['batch_size'] = bs
         _perturb_globals(case['seed'] + k)
         ctx.event('ext_calls', bs)
+        ctx.event('ext_vec_empty_meta_calls', meta == {})
         return v(*inputs, **kk)
 
     def check(res, label):
